@@ -154,7 +154,6 @@ def main():
             rows.append((mid, res))
         finally:
             sh("rsync -a --exclude .git --exclude __pycache__ %s/%s %s/%s" % (REPO, file, SCRATCH, file))
-            sh("rm -f %s/replays/*.json" % VERIF)
     sh("rm -rf /tmp/mut-main")
     return 0
 
